@@ -10,7 +10,8 @@
 (*    sym2 M                M + M^T  ( = 2 M for symmetric M: Eigen's      *)
 (*                          rankUpdate(u,v,a) adds a (u v^T + v u^T) )     *)
 (*    npe_lhs / npe_rhs     X (W + W^T) X^T           ,  X X^T             *)
-(*    lltsa_lhs / lltsa_rhs X (W + W^T - 11^T/N) X^T  ,  X J X^T           *)
+(*    lltsa_lhs / lltsa_rhs X (W + W^T) X^T           ,  X J X^T           *)
+(*    lltsa_lhs_f9          X (W + W^T - 11^T/N) X^T  (tree before F25)    *)
 (*    lpp_lhs / lpp_rhs     X (L + L^T) X^T           ,  X diag(dv) X^T    *)
 (*  Predicates                                                             *)
 (*    is_pencil D A B p     both FULL tables of p are (A, B)               *)
@@ -45,7 +46,10 @@ Section PencilSpec.
   Definition npe_lhs (N : nat) (X : mat F) (W : sparse F) : mat F := XMXt N X (sym2 (dense_of W)).
   Definition npe_rhs (N : nat) (X : mat F) : mat F := XMXt N X mI.
 
-  Definition lltsa_lhs (N : nat) (X : mat F) (W : sparse F) : mat F :=
+  (* the property: X M X^T with M the alignment matrix (rankUpdate(u,v,a) doubles it) *)
+  Definition lltsa_lhs (N : nat) (X : mat F) (W : sparse F) : mat F := XMXt N X (sym2 (dense_of W)).
+  (* what the tree computes before fix F25: an additional  - (X 1)(X 1)^T / N *)
+  Definition lltsa_lhs_f9 (N : nat) (X : mat F) (W : sparse F) : mat F :=
     XMXt N X (msub (sym2 (dense_of W)) (mconst (/ of_nat N))).
   Definition lltsa_rhs (N : nat) (X : mat F) : mat F := XMXt N X (Jn N).
 
@@ -78,7 +82,7 @@ Definition ref_pencil (m : method) (N D : nat) (Xl : list (list Qc)) (W : sparse
   let Wd := mof Wl in
   match m with
   | NPE => (mtab D D (XMXt N X (sym2 Wd)), mtab D D (XMXt N X mI))
-  | LLTSA => (mtab D D (XMXt N X (msub (sym2 Wd) (mconst (/ of_nat N)%F))), mtab D D (XMXt N X (Jn N)))
+  | LLTSA => (mtab D D (XMXt N X (sym2 Wd)), mtab D D (XMXt N X (Jn N)))
   | LPP => (mtab D D (XMXt N X (sym2 Wd)), mtab D D (XMXt N X (mdiag (vof dvl))))
   end.
 
